@@ -251,7 +251,8 @@ func oracleSocks5(sp *Spec, r *Result, ex expectation, f *fails) {
 			if honoured && sp.Outcome == "proceed" && sp.Client == "dial" && !ex.udp {
 				wantData = sp.Payload + sp.D1
 			}
-			if len(cs)-off != wantData {
+			// Abort with the success code is outside the statement: the reply may say "succeeded" and the client may go on
+			if len(cs)-off != wantData && !(sp.Outcome == "abort" && sp.Code == 0) {
 				bad("%d bytes follow the request, expected %d bytes of payload", len(cs)-off, wantData)
 			}
 		}()
